@@ -522,3 +522,31 @@ pub fn cf_roundtrip(args: &[String]) -> Result<Value> {
     Ok(json!({"violated": !failures.is_empty(), "programs_generated": all.len(), "programs_checked": checked,
               "rejected_by_validator": skipped, "budget": budget, "max_depth": max_depth, "failures": failures}))
 }
+
+
+/// all control-flow modules of a budget (validated)
+pub fn cf_modules(budget: usize, max_depth: u32) -> Vec<Vec<u8>> {
+    let mut all = vec![];
+    gen_seqs(budget, 0, max_depth, &mut all);
+    all.iter().map(|s| cf_module(s)).filter(|w| validates(w)).collect()
+}
+
+/// exactly walrus's documented elision (what the in-memory tree contains): nops dropped, nothing kept in a frame
+/// after br / br_table / return / unreachable (including nested constructs) up to the closing else / end
+pub fn normalize_walrus(ops: &[String]) -> Vec<String> {
+    let mut out: Vec<String> = vec![];
+    let mut dead_depth: Option<usize> = None;
+    for o in ops {
+        let opens = o.starts_with("Block ") || o.starts_with("Loop ") || o.starts_with("If ");
+        if let Some(d) = dead_depth {
+            if opens { dead_depth = Some(d + 1); continue; }
+            if o == "End" || o == "Else" {
+                if d == 0 { dead_depth = None; } else { if o == "End" { dead_depth = Some(d - 1); } continue; }
+            } else { continue; }
+        }
+        if o == "Nop" { continue; }
+        out.push(o.clone());
+        if o == "Unreachable" || o == "Return" || o.starts_with("Br {") || o.starts_with("BrTable") { dead_depth = Some(0); }
+    }
+    out
+}
